@@ -13,7 +13,7 @@ import (
 func init() {
 	Register(&Property{
 		ID:    "C16",
-		Floor: 110,
+		Floor: 140,
 		Clauses: "panic-site inventory of the serve goroutine: every explicit panic, unchecked type assertion, non-constant division and compiler-unproven index/slice expression reachable from serverConn.serve " +
 			"(static calls, closures, function values, dispatch through repository interfaces) is listed with a reviewed reason, no function may have more sites than reviewed and no unlisted function any; " +
 			"not descended into (boundaries, each with its reason in the table): the frame-reading goroutine and Framer.ReadFrame (C07), the handler goroutine (its panics are recovered: obligation), " +
